@@ -330,6 +330,37 @@ def main(argv=None):
         rep_results = rep_async.get() if rep_async else []
         results = gen_async.get()
 
+    # optional second engine (coverage-guided fuzzing): parallel subprocesses, results merged below
+    fuzz = {"engine": None, "execs": 0, "judged": 0, "distinct_nontrivial": 0, "processes": 0, "violations": []}
+    if hasattr(meta, "extra_engine_cmds"):
+        import subprocess
+        import tempfile
+
+        cmds = meta.extra_engine_cmds(tier, seed)
+        if cmds:
+            tmpd = tempfile.mkdtemp(prefix="vp-fuzz-", dir=os.environ.get("VERIF_SCRATCH", "/dev/shm") if os.path.isdir("/dev/shm") else None)
+            procs = []
+            for i, cmd in enumerate(cmds):
+                sf = os.path.join(tmpd, f"stats_{i}.json")
+                env = dict(os.environ, PYTHONPATH=os.pathsep.join([os.path.join(core.VERIF_DIR, ".deps"), os.environ.get("PYTHONPATH", "")]))
+                procs.append((sf, subprocess.Popen(cmd + ["--stats-file", sf, "--out", os.path.join(os.environ.get("VERIF_OUT", core.VERIF_DIR), "replays", cid)],
+                                                   cwd=core.VERIF_DIR, env=env, stdout=subprocess.DEVNULL, stderr=subprocess.DEVNULL)))
+            for sf, pr in procs:
+                pr.wait()
+                if os.path.exists(sf):
+                    st_ = json.load(open(sf))
+                    fuzz["engine"] = "atheris"
+                    fuzz["processes"] += 1
+                    fuzz["execs"] += st_["execs"]
+                    fuzz["judged"] += st_["judged"]
+                    fuzz["distinct_nontrivial"] += st_["distinct_nontrivial"]
+                    if st_["violation"]:
+                        fuzz["violations"].append((st_["violation"], st_["first"]))
+            import shutil
+
+            shutil.rmtree(tmpd, ignore_errors=True)
+            shutil.rmtree(os.path.join(core.VERIF_DIR, ".cache", "atheris_c16"), ignore_errors=True)
+
     for r in rep_results:
         if r["error"]:
             errors.append("replay: " + r["error"])
@@ -396,6 +427,13 @@ def main(argv=None):
             out_lines.append(f"  violation clause={v['clause']}: {str(v['msg'])[:500]}")
         out_lines.append(f"VIOLATION property={cid} replay={path}")
 
+    for path, first in fuzz["violations"]:
+        data = json.load(open(path))
+        k = bucket_key(data["violations"][0])
+        if k not in buckets:
+            buckets[k] = (core.spec_size(data["spec"]), data["spec"], data["violations"], "atheris")
+            out_lines.append(f"  violation clause={first['clause']}: {str(first['msg'])[:500]}")
+            out_lines.append(f"VIOLATION property={cid} replay={path}")
     wall = time.time() - t0
     # 4. evidence
     ev = {
@@ -428,6 +466,9 @@ def main(argv=None):
         "wall_s": round(wall, 2),
         "violations": len(buckets),
     }
+    if fuzz["engine"]:
+        ev["coverage"]["second_engine"] = {k: v for k, v in fuzz.items() if k != "violations"}
+        ev["coverage"]["evaluations"] += int(fuzz["judged"])
     if hasattr(meta, "extra_evidence"):
         ev["coverage"].update(meta.extra_evidence(agg))
     os.makedirs(os.path.join(out_dir, "evidence"), exist_ok=True)
